@@ -185,7 +185,11 @@ static void op_select(void) {
     /* the same objects far from the origin (+1e7 on every coordinate): distances are differences, so nothing changes for an
      * implementation that subtracts coordinates; the centroid of 1e7-sized numbers carries ~1e-8 of rounding, hence tie scale 100 */
     double tsc = 1.0;
-    if (!H_TSAN && (n <= 13 || vx_thorough()) && vx_choose("offset", 2)) { tsc = 100.0; for (size_t i = 0; i < m->row; i++) for (size_t j = 0; j < m->col; j++) m->data[i][j] += 1e7; }
+    int far = (!H_TSAN && (n <= 13 || vx_thorough())) ? vx_choose("offset", 3) : 0;
+    if (far == 1) { tsc = 100.0; for (size_t i = 0; i < m->row; i++) for (size_t j = 0; j < m->col; j++) m->data[i][j] += 1e7; }
+    /* ... and in units 4e9 times smaller (pairwise distances beyond the library's missing-value code 99999999): a change of unit
+     * does not change a max-min selection; every comparison scales with the data, so does the tie allowance */
+    if (far == 2) { tsc = 4e9; for (size_t i = 0; i < m->row; i++) for (size_t j = 0; j < m->col; j++) m->data[i][j] *= 4e9; }
     uivector *a1, *at, *f1, *ft; initUIVector(&a1); initUIVector(&at); initUIVector(&f1); initUIVector(&ft);
     MaxDis(m, (size_t)want, metric, a1, 1); MaxDis_Fast(m, (size_t)want, metric, f1, 1);
     race_reset(); MaxDis(m, (size_t)want, metric, at, (size_t)th); vx_transition(1); race_check("MaxDis", tc);
@@ -338,7 +342,7 @@ int main(int argc, char **argv) {
 #endif
   vg_seed(getenv("VERIF_SEED") ? atol(getenv("VERIF_SEED")) : 0);
   vx_describe("build", H_TSAN ? "clang ThreadSanitizer, small subset, free-running threads" : "gcc ASan+UBSan");
-  vx_describe("alphabet", "n in {3,4,5,8,13,30,80} x d in {1,2,3,6} x general-position families (selection, quick tier: n <= 30); selection: {MDC, MaxDis+MaxDis_Fast} x 3 metrics x ALL sizes 1..n (MaxDis also with every coordinate + 1e7, n <= 13 in the quick tier), KMeansppCenters x ALL sizes 1..n x seeds; "
+  vx_describe("alphabet", "n in {3,4,5,8,13,30,80} x d in {1,2,3,6} x general-position families (selection, quick tier: n <= 30); selection: {MDC, MaxDis+MaxDis_Fast} x 3 metrics x ALL sizes 1..n (MaxDis also with every coordinate + 1e7 and with all coordinates x 4e9, n <= 13 in the quick tier), KMeansppCenters x ALL sizes 1..n x seeds; "
               "k-means: k = 1..min(6,n) x initialiser {random, kmeans++, MDC, MaxDis} x seeds (random initialisers) x data scale {1, 1e-4}; thread counts {1,2,3,8} (thorough: 1..8; {1,2,3,8} for the 80-object selections)");
   vx_describe("oracle", "distinct in-range indices of the requested number; first = farthest from centroid and every next maximises the minimum library-metric value to the chosen ones "
               "(long double, candidates within 1e-9 accepted); MaxDis == MaxDis_Fast when no step is a near-tie; labels < k; centroid = mean of its members to 64 eps (members+2) max|x|; "
